@@ -311,3 +311,33 @@ impl ErrorHook {
 			.ok();
 	}
 }
+
+/// Verification-only access to the private halves of [`ErrorHook`] that `error_hook` uses
+/// (enabled only under the Kani compiler; thin wrappers, no logic).
+#[cfg(kani)]
+pub mod verif {
+	use std::sync::{Arc, OnceLock};
+
+	use super::ErrorHook;
+	use crate::error::{CriticalError, RuntimeError};
+
+	/// The cell shared between an [`ErrorHook`] and `error_hook`.
+	pub type CritCell = Arc<OnceLock<CriticalError>>;
+
+	/// `ErrorHook::new`.
+	#[must_use]
+	pub fn hook_new(error: RuntimeError) -> ErrorHook {
+		ErrorHook::new(error)
+	}
+
+	/// `payload.critical.clone()`.
+	#[must_use]
+	pub fn hook_crit_cell(hook: &ErrorHook) -> CritCell {
+		hook.critical.clone()
+	}
+
+	/// `ErrorHook::handle_crit`.
+	pub fn hook_handle_crit(crit: CritCell) -> Result<(), CriticalError> {
+		ErrorHook::handle_crit(crit)
+	}
+}
